@@ -424,7 +424,7 @@ fn dead_branch_templates(rep: &mut Report) {
 /// creations see environments that compare equal but are different values (signed zeros, equal arrays of different
 /// stored element type, equal-looking cells), and when the same literal is evaluated many times in a row
 fn closure_creation_templates(rep: &mut Report) {
-    let cases: [(&str, &str); 14] = [
+    let cases: [(&str, &str); 20] = [
         ("mk := (x: float) -> () -> float { return () -> float { return 1.0 / x } }; (mk(0.0)(), mk(1.0)(), mk(-0.0)(), mk(0.0)(), mk(-0.0)())", "(inff, 1.0f, -inff, inff, -inff)"),
         ("mk := (x: float) -> () -> float { return () -> float { return 1.0 / x } }; a := mk(0.0); b := mk(-0.0); c := mk(0.0); (a(), b(), c(), b())", "(inff, -inff, inff, -inff)"),
         ("mk := (x: [int]|[float]) -> () -> int { return () -> int { if a: [int] = x { return 1 } return 2 } }; (mk([1; 0])(), mk([0.5; 0])(), mk([1; 0])(), mk([0.5; 0])())", "(1, 2, 1, 2)"),
@@ -439,6 +439,14 @@ fn closure_creation_templates(rep: &mut Report) {
         ("mk := (x: float, y: float) -> () -> float { return () -> float { return 1.0 / x + y } }; (mk(0.0, 1.0)(), mk(-0.0, 1.0)(), mk(0.0, 2.0)(), mk(0.0, 1.0)())", "(inff, -inff, inff, inff)"),
         ("outer := (k: int) -> (float) -> () -> float { return (x: float) -> () -> float { return () -> float { return 1.0 / x + [0.0, 0.0, 0.0][k] } } }; m := outer(1); (m(0.0)(), m(-0.0)(), outer(2)(0.0)(), m(0.0)())", "(inff, -inff, inff, inff)"),
         ("mk := (x: int|float) -> () -> int { return () -> int { return match x { a: int => 1, b: float => 2, } } }; (mk(1)(), mk(1.0)(), mk(1)(), mk(1.0)())", "(1, 2, 1, 2)"),
+        // a function calls itself by its declared name from any call path - also as the operand of an iterator operator at a
+        // place where that name has been re-declared, is shadowed, or is not in scope at all
+        ("tri := (acc: int, x: int) -> int { if x > 1 { return tri(acc + x, x - 1) } return acc + x }; step := tri; tri := (a: int, b: int) -> int { return 0 - 1000 }; [3, 1]~ $0 step", "7"),
+        ("dbl := (x: int) -> int { if x > 10 { return x } return dbl(x * 2) }; g := dbl; dbl := (x: int) -> int { return 0 - 1 }; [1, 3, 20]~ @ g $]", "[16, 12, 20]"),
+        ("big := (x: int) -> bool { if x < 0 { return big(0 - x) } return x > 5 }; p := big; big := 5; ([0 - 7, 3, 9]~ ? p $], [0 - 7, 3]~ \\ p)", "([-7, 9], ([-7], [3]))"),
+        ("m := mod { tri := (acc: int, x: int) -> int { if x > 1 { return tri(acc + x, x - 1) } return acc + x } }; [3, 1]~ $0 m.tri", "7"),
+        ("g := (acc: int, x: int) -> int { if x > 1 { return g(acc + x, x - 1) } return acc + x }; f := (g2: (int, int) -> int, g: int) -> int { return [3, 1]~ $ g g2 }; f(g, 0)", "7"),
+        ("mk := () -> (int, int) -> int { tri := (acc: int, x: int) -> int { if x > 1 { return tri(acc + x, x - 1) } return acc + x }; return tri }; r := mk(); [3, 1]~ $0 r", "7"),
     ];
     for (src, want) in cases {
         rep.evaluations += 1;
@@ -527,6 +535,9 @@ fn chain_and_rerun_templates(rep: &mut Report) {
     cases.push(("pick := (x: int) -> int { return match x { ti(1, 1) => 10, ti(2, 2) => 20, ti(3, 3) => 30, => 0, } }; [pick(2), pick(1), pick(3), pick(3), pick(9)]".into(), "[20, 10, 30, 30, 0]".into(), vec![1, 2, 1, 1, 2, 3, 1, 2, 3, 1, 2, 3]));
     cases.push(("a := mut 1; b := mut 2; pick := (x: int) -> string { return match x { *a => \"first\", *b => \"second\", => \"none\", } }; r1 := pick(2); a = 2; r2 := pick(2); b = 7; a = 0; r3 := pick(7); (r1, r2, r3)".into(), "(\"second\", \"first\", \"second\")".into(), vec![]));
     cases.push(("out := mut [int] []; for x in [2, 1, 3, 3, 9, 2]~ { m := match x { ti(1, 1), ti(2, 2) => 10, ti(3, 3) => 30, => 0, }; out += [m]; }; *out".into(), "[10, 10, 30, 30, 0, 10]".into(), vec![1, 2, 1, 1, 2, 3, 1, 2, 3, 1, 2, 3, 1, 2]));
+    cases.push(("pick := (x: any) -> int { return match x { p: int => 0, q: int|float => 1, r: string => 2, t: any => 3, } }; [pick(1), pick(2.5), pick(3), pick(\"s\"), pick(4), pick([1]), pick(5), pick(1.5), pick(6)]".into(), "[0, 1, 0, 2, 0, 3, 0, 1, 0]".into(), vec![]));
+    cases.push(("out := mut [int] []; for x in [1, 2.5, 3, \"s\", 4, 2.5, 5]~ { m := match x { p: int => 0, q: int|float => 1, t: any => 3, }; out += [m]; }; *out".into(), "[0, 1, 0, 3, 0, 1, 0]".into(), vec![]));
+    cases.push(("f := (x: any) -> int { if v: int = x { return 0 } if v: int|float = x { return 1 } return 2 }; [f(2.5), f(1), f(\"s\"), f(1), f(2.5)]".into(), "[1, 0, 2, 0, 1]".into(), vec![]));
     for (body, want, log) in cases {
         let src = format!("{PRELUDE}{body}");
         rep.evaluations += 1;
